@@ -13,7 +13,7 @@ use crate::interpose::{ADD_FAIL_PLAN, CLOSE_LOG, CLOSE_LOG_ON};
 use crate::util::*;
 use khttp::{ConnectionSetupAction, Headers, Method, Server, Status};
 use std::io::Write;
-use std::net::{TcpListener, TcpStream};
+use std::net::TcpStream;
 use std::sync::atomic::{AtomicBool, Ordering};
 use std::sync::Arc;
 use std::time::{Duration, Instant};
@@ -31,10 +31,7 @@ pub fn epoll(arg: &str) -> String {
             if v != "-" { failadd = v.split(',').filter_map(|s| s.parse().ok()).collect() }
         }
     }
-    let port = {
-        let l = TcpListener::bind("127.0.0.1:0").unwrap();
-        l.local_addr().unwrap().port()
-    };
+    let port = crate::dom_serve::free_port();   // (own block of ports per process, see there)
     let stop = Arc::new(AtomicBool::new(false));
     let mut b = Server::builder(format!("127.0.0.1:{port}")).unwrap();
     b.thread_count(workers);
